@@ -464,6 +464,82 @@ def _fsm(env, sync, nev, ev0, clock, snap_idx, ek0):
     vloop.run(run2())
 
 
+def scen_restore_feedback(env, reaction):
+    """An event reaches the FSM while it is being restored: its first output (previous = UNDEF) is forwarded to a guard
+    block whose handler answers at once with an event to the FSM.  The event is an ordinary completed event: afterwards
+    the storage holds exactly the FSM's current state, and the one pending timer is the one the storage describes."""
+    clock = WallClock()
+    with clock:
+        d0 = env.real('d0', 0, 50, lo_open=True)
+        rem = env.real('remaining', 0, 50, lo_open=True)
+        d2 = env.real('d2', 0, 50, lo_open=True)
+        n0, n1 = env.int('n0'), env.int('n1')
+        clock.offset = 1000.0
+        s_wall = clock.EPOCH + clock.offset + rem
+        storage = {"<TF 'fsm'>": ('armed', s_wall, {'n': n0}), 'edzed-stop-time': clock.EPOCH + 990.0}
+        circ = fresh_circuit()
+        store = PickleStore(storage)
+        circ.set_persistent_data(store)
+        calls = []
+        TF = make_fsm_class(d0, calls)
+        probe = Probe('probe', clock=lambda: clock.time())
+
+        class Guard(edzed.SBlock):
+            def init_regular(self):
+                self.set_output(0)
+
+            def _event_trip(self, **data):
+                calls.append('trip')
+                if reaction == 'disarm':
+                    return fsm.event('disarm')
+                if reaction == 'arm':
+                    return fsm.event('arm', n=n1)
+                if reaction == 'arm-duration':
+                    return fsm.event('arm', n=n1, duration=d2)
+                if reaction == 'poke':
+                    return fsm.event('poke')
+                return None
+        Guard('guard')
+        fsm = TF('fsm', persistent=True, sync_state=True, on_enter_cool=edzed.Event(probe, 'enter'),
+                 on_enter_idle=edzed.Event(probe, 'enter'), on_enter_armed=edzed.Event(probe, 'enter'),
+                 on_output=edzed.Event('guard', 'trip', efilter=lambda data: data['previous'] is UNDEF))
+        assert fsm.key == "<TF 'fsm'>"
+
+        async def run():
+            loop = asyncio.get_running_loop()
+            asyncio.create_task(circ.run_forever())
+            await circ.wait_init()
+            now = clock.time()
+            env.check('feedback-delivered', calls[:1] == ['trip'] or 'trip' in calls, info=lambda: calls)
+            if reaction == 'disarm':
+                want = ('idle', None, {'n': n0})
+            elif reaction == 'arm':
+                want = ('armed', now + d0, {'n': n1})
+            elif reaction == 'arm-duration':
+                want = ('armed', now + d2, {'n': n1})
+            else:
+                want = ('armed', s_wall, {'n': n0})
+            env.check('restore-decision', fsm.state == want[0], info=lambda: (reaction, fsm.state, calls))
+            env.check('saved-after-init', state_eq(store.get(fsm.key), want), info=lambda: (reaction, store.get(fsm.key), want))
+            env.check('saved-is-current-state', state_eq(store.get(fsm.key), fsm.get_state()),
+                      info=lambda: (store.get(fsm.key), fsm.get_state()))
+            tm = live_block_timers(loop, circ)
+            if want[1] is None:
+                env.check('restored-timer-absolute', len(tm) == 0, info=lambda: tm)
+            else:
+                env.check('restored-timer-absolute', len(tm) == 1 and bool(
+                    eq_(edzed.utils.looptimes.loop_to_unixtime(tm[0].when()), want[1])), info=lambda: (tm, want))
+                n_before = len(probe.log)
+                await asyncio.sleep(want[1] - now)
+                await asyncio.sleep(0)
+                env.check('restored-timer-fires', len(probe.log) == n_before + 1 and bool(eq_(probe.log[-1][0], want[1]))
+                          and fsm.state == 'cool', info=lambda: (probe.log, want, fsm.state))
+                env.check('saved-after-event', state_eq(store.get(fsm.key), fsm.get_state()) and fsm.state == 'cool',
+                          info=lambda: (store.get(fsm.key), fsm.get_state()))
+            await circ.shutdown()
+        vloop.run(run())
+
+
 # ---------------------------------------------------------------------------------------------
 # Timer and InputExp (restore of derived FSM blocks) - one event, restart
 
@@ -729,6 +805,9 @@ def shards(tier):
            {'name': 'failed start: unresolved name', 'scenario': 'scen_failed_start', 'params': {'kind': 'resolve'}},
            {'name': 'failed start: task fails at once', 'scenario': 'scen_failed_start', 'params': {'kind': 'task-fails-at-once'}},
            {'name': 'failed start: aborted at the first await', 'scenario': 'scen_failed_start', 'params': {'kind': 'abort-at-once'}}]
+    for reaction in ('disarm', 'arm', 'arm-duration', 'poke', 'none'):
+        out.append({'name': f'event during the restore: {reaction}', 'scenario': 'scen_restore_feedback',
+                    'params': {'reaction': reaction}, 'cost': 3})
     for kind in ('input', 'counter'):
         for sync in (True, False):
             for si in ([-1] + list(range(nev + 1)) if sync else [-1]):
